@@ -187,6 +187,11 @@ def run(chk):
                 refs[bkey] = summary(run_scenario(base))
             ref = refs[bkey]
         items.append((origin, sc, {'ev': ev, 'ref': ref}))
+    # timing pairs: judged by the CutIndependent clause against the run in which the closing reply comes last
+    for late, early in G.timing_pairs():
+        chk.case(key=None)
+        ref = summary(run_scenario(late))
+        items.append(('timing', early, {'ev': run_scenario(early), 'ref': ref}))
     # Command.to_bytes directly
     alpha = [G.ALPHABET[k] for k in ('P', 'CR', 'LF', 'NUL', 'SP', 'PCT')]
     for arg in G.strings(alpha, 2 if quick else 4):
@@ -200,7 +205,7 @@ def run(chk):
                + 'CONSTRAINT Record\nPOSTCONDITION Post\nCHECK_DEADLOCK FALSE\n')
     traces = [t for (_, _, t) in items]
     # the model has no line limit: over-long-line scenarios are monitored only
-    strict_idx = [i for i, (o, _, _) in enumerate(items) if o not in ('direct', 'cut-long', 'stall')]   # (no timers in the model)
+    strict_idx = [i for i, (o, _, _) in enumerate(items) if o not in ('direct', 'cut-long', 'stall', 'timing')]   # (no timers in the model)
     nchunks = 4 if quick else 6
     size = max(1, (len(traces) + nchunks - 1) // nchunks)
 
